@@ -343,6 +343,9 @@ def bounded_retry(ctx):
         ok = isinstance(it, ast.Call) and isinstance(it.func, ast.Name) and it.func.id == 'range' and len(it.args) == 1 \
             and not isinstance(it.args[0], ast.Constant)
         bound = norm(it.args[0]) if ok else norm(getattr(rl.loop, 'test', None))
+        if not ok and isinstance(it, ast.Call) and isinstance(it.func, ast.Name) and it.func.id == 'range' and len(it.args) == 2 and norm(it.args[0]) == '1' \
+                and isinstance(it.args[1], ast.BinOp) and isinstance(it.args[1].op, ast.Add) and norm(it.args[1].right) == '1':
+            ok, bound = True, norm(it.args[1].left)  # range(1, attempts + 1): the same number of iterations
         ok = ok and ('attempt' in bound.lower())
         if not ok and isinstance(rl.loop, ast.While):
             # counted while: k = 0; while k < attempts: ...; k += 1 on every way back to the loop head
@@ -373,7 +376,12 @@ def bounded_retry(ctx):
                    f'only the retryable stream errors may be retried; found {names}' + (f' (too broad: {sorted(bad)})' if bad else ''))
         others = [h for h in rl.try_.handlers if h is not rl.handler]
         ctx.ob(f, 'single handler on the retry try', not others, 'another handler on the retry try changes which errors are retried/propagated')
-        ctx.ob(f, 'successful attempt returns', q.always_exits(rl.try_.body) or (rl.try_.orelse and q.always_exits(rl.try_.orelse)),
+        after_try = []
+        lb = rl.loop.body
+        if rl.try_ in lb:
+            after_try = lb[lb.index(rl.try_) + 1:]
+        ctx.ob(f, 'successful attempt returns', q.always_exits(rl.try_.body) or (rl.try_.orelse and q.always_exits(rl.try_.orelse))
+               or (q.always_exits(after_try) and isinstance(after_try[-1], ast.Return) and all(q.always_exits(h.body) for h in rl.try_.handlers)),
                'a successful attempt must leave the loop (return), otherwise the object is fetched again')
         blk = q.containing_block(rl.loop)
         i = [k for k, s in enumerate(blk) if s is rl.loop][0]
